@@ -23,7 +23,7 @@ from circuitpython_nrf24l01.fake_ble import FakeBLE
 
 PROP = "C19"
 LEVEL = "fault_enumeration"
-RULE = ("base packets: FakeBLE advertisements with seeded name (incl. the empty name) / PA level / battery 0..255 / temperature -300.00..+300.00 "
+RULE = ("one scanner, in a third of the runs two (each on its own chip); polls that come late, so that up to three payloads - valid and invalid - wait in the RX FIFO; base packets: FakeBLE advertisements with seeded name (incl. the empty name) / PA level / battery 0..255 / temperature -300.00..+300.00 "
         "/ Eddystone URLs (4 schemes, every suffix code, printable characters) / raw chunks on all three channels, and "
         "reference-encoder PDUs (valid, CRC-valid adversarial: length byte 0..29 vs AD lengths, zero-length structures, "
         "service data shorter than its UUID, truncated fields, unknown types, invalid UTF-8 names; bad CRC; random 32 "
@@ -164,7 +164,11 @@ def make(i, base_seed, tier):
             faults.append({"n": j, "what": "flip", "bits": sorted(rng.sample(range(256), rng.randint(3, 6)))})
         elif f < 0.4:
             faults.append({"n": j, "what": "drop"})
-    return {"seed": seed, "ch": rng.choice(CHS), "packets": pkts, "faults": faults, "enum": False}
+    xr = stream(seed, "ext")
+    return {"seed": seed, "ch": rng.choice(CHS), "packets": pkts, "faults": faults, "enum": False,
+            "scanners": 2 if xr.random() < 0.3 else 1,
+            # the application is late for some polls: up to three payloads (valid and invalid ones) wait in the RX FIFO
+            "hold": [j for j in range(len(pkts)) if xr.random() < 0.35]}
 
 
 def _expect_from_pdu(pdu):
@@ -265,6 +269,86 @@ def run(scn):
     return res
 
 
+def _judge_one(scn, w, res, rx, rr, p, a0, a1, advertised, stored, expected, outcomes, counts):
+    """poll once for the payload at the head of the scanner's RX FIFO and judge what the driver made of it"""
+    sim = w.sim
+    ch = scn["ch"]
+    if not stored:
+        # the scanner's radio did not store this packet (lost, or its FIFO was full): no poll is spent on it
+        outcomes.append("lost")
+        if advertised and not any(a0 <= r.get("n", -1) < a1 for r in (scn.get("faults") or [])):
+            res.add("decode", {"kind": "advertised_not_received", "name_len": len(p["name"]) if p["name"] is not None else -1},
+                    "advertise() with name %r was accepted and transmitted undisturbed, but the scanner's radio stored nothing" % (p["name"],))
+            return False
+        return True
+    # what did the receiver's radio actually get? (ground truth: head of its RX FIFO)
+    got = rr.rx_fifo[0][1] if rr.rx_fifo else None
+    qlen0 = len(rx.rx_queue)
+    try:
+        rx.available()
+    except SimAbort:
+        raise
+    except Exception as e:
+        res.add("no_raise", {"kind": "available_raised", "exc": type(e).__name__, "desc": p.get("desc", p["kind"])},
+                "available() raised %r for received payload %s (%s)" % (e, got.hex() if got else None, p.get("desc", p["kind"])))
+        return False
+    queued = len(rx.rx_queue) - qlen0
+    if advertised and not any(a0 <= r.get("n", -1) < a1 for r in (scn.get("faults") or [])):
+        # end to end: an advertisement FakeBLE accepted, sent over an undisturbed medium to a receiver on its channel,
+        # yields exactly one element carrying the advertised name and PA level (whatever went over the air in between)
+        if queued != 1:
+            res.add("decode", {"kind": "advertised_not_received", "name_len": len(p["name"]) if p["name"] is not None else -1},
+                    "advertise() with name %r, show_pa_level %r, %d item(s) was accepted and transmitted undisturbed, but the receiver queued %d elements"
+                    % (p["name"], p["show"], len(p["items"]), queued))
+            return False
+        el = rx.rx_queue[-1]
+        nm = el.name.decode() if isinstance(el.name, (bytes, bytearray)) else el.name
+        if (nm or None) != (p["name"] or None):
+            res.add("decode", {"kind": "name", "end_to_end": True}, "advertised name %r, element name %r" % (p["name"], el.name))
+        if el.pa_level != (p["pa"] if p["show"] else None):
+            res.add("decode", {"kind": "pa_level", "end_to_end": True}, "advertised pa_level %r (shown: %r), element pa_level %r" % (p["pa"], p["show"], el.pa_level))
+        sim.count("end_to_end_checked")
+    if got is None:
+        outcomes.append("lost")
+        if queued:
+            res.add("reject", {"kind": "queued_without_reception"}, "an element was queued although nothing was received")
+        return True
+    counts["received"] += 1
+    d = bleref.decode(got, ch)
+    # reference verdict on the 32 received bytes (full length byte, no RFU masking)
+    Lb = None
+    valid = False
+    strict = False
+    bits = bleref.whiten(bleref.nrf_bits(got), bleref.RF_CH_TO_BLE[ch])
+    hdr = bleref.lsb_bytes(bits[:16])
+    Lb = hdr[1]
+    if 2 + Lb + 3 <= 32:
+        end = 16 + 8 * Lb
+        valid = bits[end:end + 24] == bleref.crc24(bits[:end])
+        strict = valid and 6 <= Lb <= 27
+    if queued > 1:
+        res.add("reject", {"kind": "multiple_elements"}, "one received payload queued %d elements" % queued)
+    elif queued and not valid:
+        res.add("reject", {"kind": "invalid_queued", "len_byte_fits": 2 + Lb + 3 <= 32},
+                "payload with length byte %d / CRC %s was queued" % (Lb, "valid" if valid else "invalid"))
+    elif strict and not queued:
+        res.add("reject", {"kind": "valid_not_queued"}, "valid packet (length %d, CRC ok) was not queued: %s" % (Lb, got.hex()))
+    outcomes.append("queued" if queued else "rejected")
+    if queued and strict:
+        pdu = bleref.lsb_bytes(bits[:16 + 8 * Lb])
+        expected.append(pdu)
+        _check_elem(res, rx.rx_queue[-1], pdu, p)
+        if p["kind"] == "ref" and p.get("desc") not in (None, "ok_simple"):
+            sim.count("crc_valid_malformed_pdu")
+        if any(r.get("n") == a1 - 1 for r in (scn.get("faults") or [])):
+            sim.count("flip_in_padding_still_valid")
+    elif queued:
+        expected.append(None)
+    if res.violations:
+        return False
+    return True
+
+
 def _run(scn, w, res):
     sim = w.sim
     ch = scn["ch"]
@@ -279,12 +363,22 @@ def _run(scn, w, res):
     tx.__enter__()
     tx.channel = ch
     sim.advance(300_000)
+    rx2 = rr2 = None
+    if scn.get("scanners", 1) == 2:
+        rr2 = w.radio("RX2")
+        rx2 = FakeBLE(*w.bus(rr2))
+        rx2.__enter__()
+        rx2.channel = ch
+        rx2.listen = True
     expected = []   # per arrival: reference PDU (valid) -> element expected
     outcomes = []
-    received = 0
+    counts = {"received": 0}
+    pending = []   # packets sent but not yet polled for: (packet, trace window, advertised, stored by the scanner)
+    hold = scn.get("hold") or []
     for j, p in enumerate(scn["packets"]):
         a0 = len(w.air.trace)
         advertised = False
+        fifo_before = len(rr.rx_fifo)
         sim.log("pkt", "T", p["kind"])
         if p["kind"] == "ble":
             tx.mac = p["mac"]
@@ -319,71 +413,34 @@ def _run(scn, w, res):
         else:
             inj.send(b"\x71\x91\x7d\x6b", bytes.fromhex(p["d"]), want_ack=False)
         sim.advance(200_000)
-        # what did the receiver's radio actually get? (ground truth: head of its RX FIFO)
-        got = rr.rx_fifo[-1][1] if rr.rx_fifo else None
-        qlen0 = len(rx.rx_queue)
-        try:
-            rx.available()
-        except SimAbort:
-            raise
-        except Exception as e:
-            res.add("no_raise", {"kind": "available_raised", "exc": type(e).__name__, "desc": p.get("desc", p["kind"])},
-                    "available() raised %r for received payload %s (%s)" % (e, got.hex() if got else None, p.get("desc", p["kind"])))
-            return
-        queued = len(rx.rx_queue) - qlen0
-        if advertised and not any(a0 <= r.get("n", -1) < len(w.air.trace) for r in (scn.get("faults") or [])):
-            # end to end: an advertisement FakeBLE accepted, sent over an undisturbed medium to a receiver on its channel,
-            # yields exactly one element carrying the advertised name and PA level (whatever went over the air in between)
-            if queued != 1:
-                res.add("decode", {"kind": "advertised_not_received", "name_len": len(p["name"]) if p["name"] is not None else -1},
-                        "advertise() with name %r, show_pa_level %r, %d item(s) was accepted and transmitted undisturbed, but the receiver queued %d elements"
-                        % (p["name"], p["show"], len(p["items"]), queued))
+        pending.append((p, a0, len(w.air.trace), advertised, len(rr.rx_fifo) > fifo_before))
+        if rx2 is not None:
+            rx2.available()          # the second scanner polls after every packet
+        if j in hold and j != len(scn["packets"]) - 1 and len(rr.rx_fifo) < 3:
+            sim.count("poll_skipped")
+            continue                 # the application is late: this payload waits in the RX FIFO until after the next packet
+        for (p, a0, a1, advertised, stored) in pending:
+            if _judge_one(scn, w, res, rx, rr, p, a0, a1, advertised, stored, expected, outcomes, counts) is False:
                 return
-            el = rx.rx_queue[-1]
-            nm = el.name.decode() if isinstance(el.name, (bytes, bytearray)) else el.name
-            if (nm or None) != (p["name"] or None):
-                res.add("decode", {"kind": "name", "end_to_end": True}, "advertised name %r, element name %r" % (p["name"], el.name))
-            if el.pa_level != (p["pa"] if p["show"] else None):
-                res.add("decode", {"kind": "pa_level", "end_to_end": True}, "advertised pa_level %r (shown: %r), element pa_level %r" % (p["pa"], p["show"], el.pa_level))
-            sim.count("end_to_end_checked")
-        if got is None:
-            outcomes.append("lost")
-            if queued:
-                res.add("reject", {"kind": "queued_without_reception"}, "an element was queued although nothing was received")
-            continue
-        received += 1
-        d = bleref.decode(got, ch)
-        # reference verdict on the 32 received bytes (full length byte, no RFU masking)
-        Lb = None
-        valid = False
-        strict = False
-        bits = bleref.whiten(bleref.nrf_bits(got), bleref.RF_CH_TO_BLE[ch])
-        hdr = bleref.lsb_bytes(bits[:16])
-        Lb = hdr[1]
-        if 2 + Lb + 3 <= 32:
-            end = 16 + 8 * Lb
-            valid = bits[end:end + 24] == bleref.crc24(bits[:end])
-            strict = valid and 6 <= Lb <= 27
-        if queued > 1:
-            res.add("reject", {"kind": "multiple_elements"}, "one received payload queued %d elements" % queued)
-        elif queued and not valid:
-            res.add("reject", {"kind": "invalid_queued", "len_byte_fits": 2 + Lb + 3 <= 32},
-                    "payload with length byte %d / CRC %s was queued" % (Lb, "valid" if valid else "invalid"))
-        elif strict and not queued:
-            res.add("reject", {"kind": "valid_not_queued"}, "valid packet (length %d, CRC ok) was not queued: %s" % (Lb, got.hex()))
-        outcomes.append("queued" if queued else "rejected")
-        if queued and strict:
-            pdu = bleref.lsb_bytes(bits[:16 + 8 * Lb])
-            expected.append(pdu)
-            _check_elem(res, rx.rx_queue[-1], pdu, p)
-            if p["kind"] == "ref" and p.get("desc") not in (None, "ok_simple"):
-                sim.count("crc_valid_malformed_pdu")
-            if any(r.get("n") == len(w.air.trace) - 1 for r in (scn.get("faults") or [])):
-                sim.count("flip_in_padding_still_valid")
-        elif queued:
-            expected.append(None)
-        if res.violations:
+        pending = []
+    for (p, a0, a1, advertised, stored) in pending:
+        if _judge_one(scn, w, res, rx, rr, p, a0, a1, advertised, stored, expected, outcomes, counts) is False:
             return
+    received = counts["received"]
+    if rx2 is not None and not res.violations:
+        # the second scanner heard the same packets (same medium, same corruptions): it holds as many elements, in the same order
+        n2 = 0
+        for k_ in range(len(expected) + 4):
+            e2 = rx2.read()
+            if e2 is None:
+                break
+            n2 += 1
+            if k_ < len(expected) and expected[k_] is not None and bytes(e2.mac) != expected[k_][2:8]:
+                res.add("fifo", {"kind": "order", "scanner": 2}, "the second scanner's read() #%d returned MAC %s, arrival order says %s" % (k_, bytes(e2.mac).hex(), expected[k_][2:8].hex()))
+                break
+        if n2 != len(expected) and not res.violations:
+            res.add("fifo", {"kind": "count", "scanner": 2}, "the second scanner delivered %d elements, the first %d (same packets on the same medium)" % (n2, len(expected)))
+        sim.count("two_scanners")
     # ---- fifo: arrival order, each once, then None
     for k, pdu in enumerate(expected):
         e = rx.read()
